@@ -284,8 +284,8 @@ def shape_linked_chain(chain):
 def chain_sequences(tier):
     """the linked-chain invocation sequences.  A chain = a word over the link pool with 0..n links after the base lambda
     (chain length incl. the base: <= 4 quick, <= 5 thorough).  Sequences: every ordered pair (X, Y) of chains invoked as
-    X, Y, X, Y (so every 2-sequence, and every return to a shape seen before), and every ordered triple of pairwise
-    different chains of <= 2 links; the closure values of the link at position j of invocation i are the (i + j)-th of the
+    X, Y, X, Y (so every 2-sequence, and every return to a shape seen before; X, Y, X when one of the two has 4 links —
+    thorough only), and every ordered triple of pairwise different chains of <= 2 links; the closure values of the link at position j of invocation i are the (i + j)-th of the
     link's value cycle, so that no two invocations of a sequence carry the same values at the same place."""
     pool = QUICK_LINKS if tier == "quick" else THOROUGH_LINKS
     nmax = 3 if tier == "quick" else 4
@@ -294,7 +294,7 @@ def chain_sequences(tier):
 
     def inst(word, i):
         return [[[name] + LINKS[name][1][(i + j) % len(LINKS[name][1])] for j, name in enumerate(word)]]
-    seqs = [[inst(x, 0), inst(y, 1), inst(x, 2), inst(y, 3)] for x in words for y in words]
+    seqs = [[inst(x, 0), inst(y, 1), inst(x, 2), inst(y, 3)][:4 if max(len(x), len(y)) <= 3 else 3] for x in words for y in words]
     seqs += [[inst(x, 0), inst(y, 1), inst(z, 2)] for x in short for y in short for z in short if len({x, y, z}) == 3]
     return seqs, dict(links=pool, max_links_after_base=nmax, chains=len(words), pair_sequences=len(words) ** 2, triple_sequences=len(seqs) - len(words) ** 2)
 
@@ -482,7 +482,7 @@ def run(run, tier, seed, args):
         scope="%d lambda shapes %s x all invocation sequences of length <= %d over their value pools (scalars, None, strings, lists for IN of length 0..3, "
               "columns / tables / ORM attributes / subqueries from the closure, module global, object attribute with and without track_on, nested += criteria, "
               "with_loader_criteria lambdas); caches (AnalyzedCode._fns, _closure_per_cache_key, engine compiled cache) emptied before each sequence and shared "
-              "within it; linked chains lambda_stmt(base) += link... : all %d chains of <= %d links after the base over the link pool %s, all %d ordered pairs (X, Y) invoked as X, Y, X, Y "
+              "within it; linked chains lambda_stmt(base) += link... : all %d chains of <= %d links after the base over the link pool %s, all %d ordered pairs (X, Y) invoked as X, Y, X, Y (X, Y, X when a chain has 4 links) "
               "and all %d ordered triples of different chains of <= 2 links, fresh closure values at every invocation; SQLite, qmark rendering"
               % (len(SHAPES) - 1, [x for x in SHAPES if x != CHAIN], length, chain_scope["chains"], chain_scope["max_links_after_base"], chain_scope["links"], chain_scope["pair_sequences"], chain_scope["triple_sequences"]),
         contract_failures=len(fails), wall_s=round(time.time() - t0, 1))
